@@ -3,7 +3,7 @@
    refuses the returned updates for a duplicate key or a negative power. *)
 From stdpp Require Import gmap.
 Require Import Model.Base Model.Ante Model.Validate Model.Current Model.State Model.Staking Model.Slashing Model.Poa Model.App.
-Require Import proofs.Inv proofs.InvIdx proofs.InvPres proofs.InvMsgs.
+Require Import proofs.EvBasic proofs.Inv proofs.InvIdx proofs.InvPres proofs.InvMsgs.
 Open Scope Z_scope.
 
 Definition wf_genesis (g : genesis) : Prop := Forall (fun t => 0 <= t) (g_tokens g).
@@ -119,8 +119,8 @@ Proof.
   intros HCI. unfold run_block. destruct (w_halted w); [exact HCI|].
   set (c0 := with_clock (w_chain w) (height (w_chain w) + 1) (now (w_chain w) + b_dt b)).
   assert (H0 : CI c0) by (apply CI_clock; exact HCI).
-  destruct (begin_block c0 _ (b_absent b)) as [c1|e] eqn:Eb; [|exact H0].
-  pose proof (begin_block_CI _ _ _ _ H0 Eb) as H1.
+  destruct (begin_block c0 _ (b_absent b) (b_evidence b)) as [c1|e] eqn:Eb; [|exact H0].
+  pose proof (begin_block_CI _ _ _ _ _ H0 Eb) as H1.
   pose proof (deliver_txs_CI (b_txs b) c1 H1) as H2. destruct (deliver_txs c1 (b_txs b)) as [c2 outs]. cbn in H2.
   destruct (staking_end_block c2) as [c3 upd|e] eqn:Ee; [|exact H2].
   pose proof (staking_end_block_CI _ _ _ H2 Ee) as H3.
@@ -162,8 +162,8 @@ Proof.
   intros HCI w' Hh. subst w'. unfold run_block. rewrite Hh.
   set (c0 := with_clock (w_chain w) (height (w_chain w) + 1) (now (w_chain w) + b_dt b)).
   assert (H0 : CI c0) by (apply CI_clock; exact HCI).
-  destruct (begin_block c0 _ (b_absent b)) as [c1|e] eqn:Eb; [|cbn; repeat split; discriminate].
-  pose proof (begin_block_CI _ _ _ _ H0 Eb) as H1.
+  destruct (begin_block c0 _ (b_absent b) (b_evidence b)) as [c1|e] eqn:Eb; [|cbn; repeat split; discriminate].
+  pose proof (begin_block_CI _ _ _ _ _ H0 Eb) as H1.
   pose proof (deliver_txs_CI (b_txs b) c1 H1) as H2. destruct (deliver_txs c1 (b_txs b)) as [c2 outs]. cbn in H2.
   destruct H2 as [HS2 HP2].
   pose proof (apply_valset_updates_safe c2 (si_sound _ HS2) (si_unique _ HS2) (si_cons _ HS2) (si_last _ HS2) (si_tok _ HS2)) as Hsafe.
